@@ -6,7 +6,7 @@ set -u
 N="$1"; W=/tmp/seed/$N; S=$W/SEED
 [ -f $S/patch.diff ] || { echo "no patch for $N"; exit 2; }
 cd $W || exit 2
-git checkout -q -- scnr/src 2>/dev/null; git stash clear 2>/dev/null
+git checkout -q -- scnr/src 2>/dev/null
 cp $S/seed_demo.rs scnr/tests/seed_demo.rs
 git apply $S/patch.diff || { echo "$N: patch does not apply"; exit 1; }
 export CARGO_NET_OFFLINE=true
